@@ -198,7 +198,32 @@ def dec_rows(prog, path, max_configs=6000):
     names = dict((l, n) for l, n in body['names'])
     args = [m.make_value(st, body['locals'][i], names.get(i, 'a%d' % i)) for i in range(1, body['argc'] + 1)]
     outs = m.run(inst, args, st)
+    outs = split_cond_results(outs)
     rows = [DRow(prog, o) for o in outs]
     res = (inst, rows, m)
     _dec_cache[key] = res
+    return res
+
+
+def split_cond_results(outs):
+    """an accessor that returns a comparison of a byte it read (`Ok(b == 0xf5)`) has one path for two table cells: the row is split
+    at the comparison so that each cell carries its constant"""
+    from .absint import Cond, Outcome, iv_and, iv_sub
+    from .prims import RESULT, norm_adt
+    res = []
+    for o in outs:
+        v = o.value
+        if o.kind == 'return' and isinstance(v, Adt) and norm_adt(v.adt) == RESULT and v.variant == 0 and v.fields and isinstance(v.fields[0], Cond):
+            c = v.fields[0]
+            rng = o.st.ranges.get(c.sym)
+            parts = [(iv_and(rng, c.tset), 1), (iv_sub(rng, c.tset), 0)] if rng is not None else []
+            parts = [(p_, b_) for p_, b_ in parts if p_]
+            if parts:
+                for p_, b_ in parts:
+                    st2 = o.st.clone()
+                    st2.ranges[c.sym] = p_
+                    o2 = Outcome(st2, o.kind, Adt(v.adt, 0, [Int.const(b_)]), o.why)
+                    res.append(o2)
+                continue
+        res.append(o)
     return res
